@@ -29,9 +29,10 @@ def random_mps(rng, L, dims, chi, deficient, alias=None, rescale=None):
     from mqt.yaqs.core.data_structures.networks import MPS
 
     tens = []
+    bonds = chi if isinstance(chi, (list, tuple)) else [chi] * (L - 1)  # a list: one dimension per bond (may exceed the Hilbert space next to it)
     for i in range(L):
-        lft = 1 if i == 0 else chi
-        r = 1 if i == L - 1 else chi
+        lft = 1 if i == 0 else bonds[i - 1]
+        r = 1 if i == L - 1 else bonds[i]
         t = rng.normal(size=(dims[i], lft, r)) + 1j * rng.normal(size=(dims[i], lft, r))
         if deficient and r > 1:
             t[:, :, -1] = t[:, :, 0]  # two equal columns: the bond is rank deficient
@@ -149,12 +150,34 @@ def run_case(seed, L, dims, chi, deficient, ops, alias=None, rescale=None):
         centres = [int(c) for c in mps.check_canonical_form()]
     except Exception as e:  # noqa: BLE001
         centres = f"EXC:{e}"
+    # the query itself: when every isometry condition clearly holds (defect < 1e-10) or clearly fails (> 1e-4), the reported centres must
+    # be exactly the sites c with everything left of c left-isometric and everything right of c right-isometric
+    if not rescale and isinstance(centres, list):
+        dl, dr = [], []
+        for t in mps.tensors:
+            d_, l_, r_ = t.shape
+            dl.append(float(np.max(np.abs(np.einsum("plr,pls->rs", t.conj(), t) - np.eye(r_)))))
+            dr.append(float(np.max(np.abs(np.einsum("plr,pmr->lm", t, t.conj()) - np.eye(l_)))))
+        if all(x < 1e-10 or x > 1e-4 for x in dl + dr):
+            want = [c for c in range(L) if all(x < 1e-10 for x in dl[:c]) and all(x < 1e-10 for x in dr[c + 1:])]
+            if sorted(centres) != want:
+                problems.append(f"check_canonical_form() reports {centres} after {ops}, but the isometry conditions hold exactly for the centres {want} "
+                                f"(tensor shapes {[tuple(t.shape) for t in mps.tensors]})")
     return (lf, rf), centres, problems
 
 
 def correspond(ctx):
     ctx.rules.append(RULE)
     cases, exprs, impl = [], [], []
+    # corpus: chains carrying a bond wider than the Hilbert space to its left (legal, rank deficient), gauged from the right
+    for dims, bonds in (([2, 2, 2, 2, 2], [2, 8, 4, 2]), ([2, 2, 4, 4], [2, 8, 4]), ([3, 2, 2, 2, 3], [3, 7, 6, 3]), ([2, 2, 2], [1, 4])):
+        L = len(dims)
+        for ops in ([("normalize", 0, "QR")], [("set", 0, "QR")], [("flip", 0, "QR"), ("set", L - 1, "QR"), ("flip", 0, "QR")], [("set", L - 1, "SVD"), ("shiftL", L - 1, "QR")]):
+            seed = int(ctx.rng.integers(0, 2**31))
+            impl.append(run_case(seed, L, dims, bonds, False, ops, None, None))
+            exprs.append(f"let g := fold_left apply_gop {g_list([g_op(o) for o in ops])} (unknown {L}%nat) in (lf g, rf g, centres g)")
+            cases.append(dict(seed=seed, L=L, dims=dims, chi=bonds, deficient=False, ops=ops, alias=None, rescale=None))
+            ctx.count("uneven_bonds")
     for k in range(ctx.scale(150, 3000)):
         L = int(ctx.rng.integers(1, 7))
         dims = [int(x) for x in ctx.rng.choice([2, 2, 3], size=L)]
@@ -175,6 +198,9 @@ def correspond(ctx):
             dims = [int(x) for x in ctx.rng.choice([2, 2, 3], size=L)]
             ops = [(o[0], min(o[1], L - 1), "QR") for o in gen_ops(ctx.rng, L)]  # SVD mode cuts by an ABSOLUTE 1e-12: not scale-free
             ctx.count("rescaled_gauge")
+        if k % 5 == 2 and L >= 3 and not alias:  # uneven bonds, some wider than the Hilbert space on one side of them
+            chi = [int(x) for x in ctx.rng.choice([1, 2, 2, 3, 4, 6, 8], size=L - 1)]
+            ctx.count("uneven_bonds")
         impl.append(run_case(seed, L, dims, chi, deficient, ops, alias, rescale))
         exprs.append(f"let g := fold_left apply_gop {g_list([g_op(o) for o in ops])} (unknown {L}%nat) in (lf g, rf g, centres g)")
         cases.append(dict(seed=seed, L=L, dims=dims, chi=chi, deficient=deficient, ops=ops, alias=alias, rescale=rescale))
@@ -188,7 +214,7 @@ def correspond(ctx):
         for o in c["ops"]:
             ctx.count("op_" + o[0] + "_" + o[2])
         for pr in problems:
-            ctx.violation("vector-changed" if "changed" in pr or "not the normalised" in pr else "gauge-raises", pr, {"oracle": "sequence", **c})
+            ctx.violation("vector-changed" if "changed" in pr or "not the normalised" in pr else ("query" if "check_canonical_form" in pr else "gauge-raises"), pr, {"oracle": "sequence", **c})
         if flags is None:
             continue
         lf, rf = flags
